@@ -38,6 +38,9 @@ ASSUMPTIONS = ["MinimiserSpec (numerical): sampled with tolerance 5e-3 in NLL/DL
                "fisher_vs_match_identity_chain: hfin (snapping never makes the likelihood infinite) - holds for every tree linear in its parameters with a Gaussian likelihood; "
                "positive finite Hessian diagonal; sympy/numpy at the identity chain (empty substitution loop, identity Jacobian) return (theta, diag) unchanged - checked by the differential run",
                "the matching stage reads negloglike_comp<n>.dat (optimiser output) and derivs_comp<n>.dat (Fisher stage), never the Fisher stage's reported parameters (codelen_comp<n>_deriv.dat has no reader)"]
+# tables whose committed version may stand in as a hand-written model when the translator cannot read the source;
+# value = the correspondence that then ties it to the code (common.prove / common.decide)
+FALLBACK = {'Aifeyn': 'as C08', 'Codelen': 'as C07', 'Match': 'as C05', 'Single': "single_function's returned terms vs the real pipeline routines called separately on the same tree and data"}
 MODELLED = ["fit_single.py:single_function", "fit_single.py:fit_from_string", "test_all_Fisher.py:convert_params", "match.py:main"]
 
 TOL = 5e-3
